@@ -8,6 +8,7 @@ import (
 	"io"
 	"log/slog"
 	mrand "math/rand/v2"
+	"os"
 	"sort"
 	"strings"
 	"time"
@@ -79,6 +80,7 @@ func genCluster(r *mrand.Rand, prop, tier string) simcore.Case {
 	cs.Cfg["hlat"] = pick(0, 1, 1, 2)
 	cs.Cfg["readbatch"] = pick(1, 2, 3, 7)
 	cs.Cfg["pace_ms"] = pick(2000, 5000, 15000)
+	cs.Cfg["poll_ms"] = pick(100, 300, 1000, 3000)
 	cs.Cfg["tsmode"] = pick(0, 1, 2) // ordered, shuffled, with duplicates/regressions
 	cs.Cfg["tcache"] = pick(40, 200, 1<<30)
 	cs.Cfg["dataseed"] = int64(r.Uint32())
@@ -173,7 +175,7 @@ func bodyCluster(c *sim.Ctx) {
 	// input
 	dr := mrand.New(mrand.NewPCG(uint64(c.Cfg("dataseed", 1)), 21))
 	S, R, nkeys := int(c.Cfg("splits", 1)), int(c.Cfg("records", 10)), int(c.Cfg("nkeys", 2))
-	src := &simSource{w: w, batch: int(c.Cfg("readbatch", 2)), paceMS: c.Cfg("pace_ms", 2000)}
+	src := &simSource{w: w, batch: int(c.Cfg("readbatch", 2)), paceMS: c.Cfg("pace_ms", 2000), pollMS: c.Cfg("poll_ms", 500)}
 	for s := 0; s < S; s++ {
 		var recs []simRecord
 		ts := int64(1000)
@@ -775,6 +777,11 @@ func (w *cluWorld) checkStreams() {
 	for _, k := range keys {
 		srID := k[:strings.Index(k, ">")]
 		items := w.streams[k]
+		if os.Getenv("VERIF_DEBUG") != "" {
+			for i, it := range items {
+				fmt.Fprintf(os.Stderr, "STREAM %s %d %s rec=%s ts=%d wm=%s ckpt=%d at=%s\n", k[len(k)-8:], i, it.kind, it.rec, it.ts.Unix(), it.wm.UTC().Format("15:04:05.000000000"), it.ckpt, fmtDur(it.at))
+			}
+		}
 		var lastWM, maxTS time.Time
 		haveWM, haveTS := false, false
 		wmsSinceRec := 0
